@@ -137,3 +137,19 @@ def identity_payload(e, roles):
         leaves.append(("OTHER", x))
     leaf(e)
     return leaves
+
+
+LOSSY = ("skip", "take", "step_by", "skip_while", "take_while", "nth", "last", "truncate", "pop", "remove", "swap_remove", "drain", "retain", "dedup", "find", "position", "rev",
+         "sort", "sort_by", "sort_unstable", "reverse", "split_off", "split_at", "first", "next_back")
+
+
+def lossy_calls(crate, body, allow=()):
+    """calls of element-dropping / reordering iterator or Vec operations in `body` and its closures (a conversion that must carry every element in order has none)"""
+    out = []
+    for b in [body] + crate.closures_of(body, recursive=True):
+        for bb, t, ci in b.calls():
+            p = ir.callee_path(ci) or ""
+            nm = flow.last(p)
+            if nm in LOSSY and nm not in allow and ("iter" in p or "Iterator" in p or "Vec" in p or "slice" in p or "collections" in p):
+                out.append("%s at %s" % (flow.fname(p), b.where(t.get("loc"))))
+    return out
